@@ -1,5 +1,6 @@
+use std::collections::HashSet;
 use std::ops::ControlFlow;
-use std::sync::{Arc, RwLock};
+use std::sync::{Arc, Mutex, RwLock};
 
 use async_lsp::lsp_types::{
     notification, request, CompletionOptions, CompletionParams, CompletionResponse,
@@ -16,7 +17,7 @@ use futures::future::{ready, BoxFuture};
 use tokio::task::{self};
 
 use ide::analysis::{Analysis, AnalysisHost};
-use ide::file_system::FileSystem;
+use ide::file_system::{FileId, FileSystem};
 
 use crate::vfs::{UrlExt, Vfs};
 use crate::{from_proto, to_proto};
@@ -26,6 +27,8 @@ pub struct Server {
     vfs: Arc<RwLock<Vfs>>,
     client: ClientSocket,
     diagnostic_version: i32,
+    // files whose diagnostics are currently shown by the client
+    published_files: Arc<Mutex<HashSet<FileId>>>,
 }
 
 impl Server {
@@ -58,6 +61,7 @@ impl Server {
             vfs: Arc::new(RwLock::new(Vfs::new())),
             client,
             diagnostic_version: 0,
+            published_files: Arc::new(Mutex::new(HashSet::new())),
         }
     }
 }
@@ -317,8 +321,39 @@ impl Server {
     fn update_diagnostics(&mut self) {
         let diag_version = self.bump_diagnostic_version();
         let mut client = self.client.clone();
+        let published_files = Arc::clone(&self.published_files);
         self.spawn_with_snapshot((), move |snap, _| {
-            for (file_id, diagnostics) in snap.analysis.diagnostics() {
+            let mut published_files = published_files.lock().unwrap();
+            let all_diagnostics = snap.analysis.diagnostics();
+
+            // clear the diagnostics of files that are no longer part of the workspace
+            let stale_files: Vec<FileId> = published_files
+                .iter()
+                .filter(|file_id| !all_diagnostics.contains_key(file_id))
+                .copied()
+                .collect();
+            *published_files = all_diagnostics.keys().copied().collect();
+            for file_id in stale_files {
+                let file_uri = {
+                    #[cfg(feature = "verif")]
+                    let _released =
+                        crate::verif::OnDrop(crate::verif::Ev::VfsReadReleased("stale_diagnostics"));
+                    #[cfg(feature = "verif")]
+                    crate::verif::point(crate::verif::Ev::VfsReadWant("stale_diagnostics"));
+                    let vfs = snap.vfs.read().unwrap();
+                    #[cfg(feature = "verif")]
+                    crate::verif::point(crate::verif::Ev::VfsReadAcquired("stale_diagnostics"));
+                    UrlExt::from_file_path(vfs.path_for_file(&file_id))
+                };
+                let params = PublishDiagnosticsParams::new(file_uri, Vec::new(), Some(diag_version));
+                client
+                    .publish_diagnostics(params)
+                    .expect("failed to publish diagnostics");
+                #[cfg(feature = "verif")]
+                crate::verif::point(crate::verif::Ev::Published);
+            }
+
+            for (file_id, diagnostics) in all_diagnostics {
                 let line_index = snap.analysis.line_index(file_id);
                 let lsp_diags = diagnostics
                     .into_iter()
